@@ -22,6 +22,7 @@ const (
 	kfInline      = "KF-C04-inline-container"
 	kfBlockSdt    = "KF-C04-block-sdt"
 	kfNestedTbl   = "KF-C04-nested-table"
+	kfCellOrder   = "KF-C04-cell-order"
 )
 
 func hasOp(c Case, kinds ...string) bool {
@@ -98,6 +99,41 @@ func libraryDense(p foreign.Package) (int, bool) {
 		}
 	}
 	return n, dense
+}
+
+func blockHasText(b foreign.Block) bool {
+	p := foreign.Minimal()
+	p.Body = []foreign.Block{b}
+	return p.Text() != ""
+}
+
+// tableBeforeTextInCell: some cell holds a nested table (with text) followed by a paragraph with text.
+func tableBeforeTextInCell(blocks []foreign.Block) bool {
+	for _, b := range blocks {
+		switch b.K {
+		case "tbl":
+			for _, row := range b.Rows {
+				for _, cell := range row {
+					seenTbl := false
+					for _, cb := range cell.Blocks {
+						if cb.K == "tbl" && blockHasText(cb) {
+							seenTbl = true
+						} else if cb.K == "p" && seenTbl && blockHasText(cb) {
+							return true
+						}
+					}
+					if tableBeforeTextInCell(cell.Blocks) {
+						return true
+					}
+				}
+			}
+		case "sdt":
+			if tableBeforeTextInCell(b.Blocks) {
+				return true
+			}
+		}
+	}
+	return false
 }
 
 const docRels = "word/_rels/document.xml.rels: "
@@ -244,6 +280,14 @@ var findings = []kit.Finding[Case]{
 		Clause:  "C04.N5." + catBlockSdt,
 		Desc:    "a block-level content control (w:sdt around paragraphs) is skipped by the reader as an unknown body element: all its text is gone after save",
 		Trigger: func(c Case, f kit.Failure) bool { return c.Pkg.Has(foreign.FBlockSdt) },
+	},
+	{
+		ID:     kfCellOrder,
+		Clause: "C04.N5.cell-order",
+		Desc:   "a cell holding a nested table before a paragraph is written back with its paragraphs first (TableCell stores paragraphs and tables separately): text order inside the cell changes, nothing is lost",
+		// input class: some cell of the package has a nested table followed by a paragraph that carries text (the clause itself is
+		// only raised when all w:t are still present and exactly this reordering explains the saved text)
+		Trigger: func(c Case, f kit.Failure) bool { return tableBeforeTextInCell(c.Pkg.Body) },
 	},
 	{
 		ID:      kfNestedTbl,
